@@ -32,6 +32,7 @@ package v1
 //@   ensures @C04,C20 err == nil ==> 0 <= yearOf(out.Until) && yearOf(out.Until) <= 9999
 
 //@ func durationPart returns (n, err)
+//@   bounded TestVerifBoundedValidity
 //@   props C04 C20
 //@   uses time.smt2
 //@   ensures @C04 s == "" ==> err == nil && n == 0
@@ -158,6 +159,7 @@ package v1
 //@   ensures @C06 r != nil && oidv(r) == specExtOid(5)
 
 //@ func (SubjectAltName).Builder returns (b, err)
+//@   bounded TestVerifBoundedV1Names
 //@   props C06 C07 C08
 //@   uses v1ext.smt2
 //@   inline commonExtensionHandler
@@ -352,6 +354,7 @@ package v1
 
 // ---- admission (C16): the configured tree is converted field by field
 //@ func (GeneralName).convert returns (res, err)
+//@   bounded TestVerifBoundedV1Names
 //@   props C16
 //@   uses v1ext.smt2
 //@   ensures @C16 g.Type == "dns" ==> err == nil && res != nil && gnDer(res) == tlv(2, 2, false, strBytes(g.Name))
